@@ -52,8 +52,12 @@ class Taint:
         p = op_place(o)
         return p is not None and self.place_tainted(f, p)
 
+    def carrier(self, f, l):
+        """a lazy iterator (or a reference to one): it hands what it was built over to whatever consumes it"""
+        return bool(re.search(r"std::iter::\w+<.*\{closure@", f.local_ty(l)))
+
     def mark(self, f, l):
-        if not self.intish(f, l):
+        if not self.intish(f, l) and not self.carrier(f, l):
             return False
         if (f.id, l) in self.t:
             return False
@@ -150,6 +154,19 @@ class Taint:
                         if not dest["p"]:
                             if self.mark(f, dest["l"]):
                                 changed = True
+                            elif not callee and (fid, dest["l"]) not in self.t and re.search(r"std::iter::|\{closure@", f.local_ty(dest["l"])):
+                                # a lazy iterator over tainted items (`.map(|h| parse(h))`): it carries them to whatever consumes it
+                                self.t.add((fid, dest["l"])); changed = True
+                    if targs and not callee:
+                        # a closure handed to an opaque callee together with a tainted value (the items of a tainted iterator, the payload of a
+                        # tainted Option / Result) receives it as its argument
+                        for a in t["args"]:
+                            o = f.origin(a)
+                            if o[0] == "agg" and o[1] in self.fns and "{closure" in str(o[1]):
+                                cg = self.fns[o[1]]
+                                for l_ in range(2, cg.argc + 1):
+                                    if (o[1], l_) not in self.params:
+                                        self.params.add((o[1], l_)); changed = True
                     if targs and not callee:
                         # a tainted value handed to an opaque callee together with a `&mut` place may be stored there
                         # (Option::get_or_insert, mem::replace, Vec::push ...)
